@@ -229,13 +229,20 @@ def gen_comb(streams):
             # the same column lists
             cfg['reducer'] = cfg['reducer'] or g.choice(REDUCERS)
             cfg['direct'] = {'bad_col': g.randrange(16) if g.random() < 0.6 else None,
-                             'bad_kind': g.choice(['wide', 'int'])}
+                             'bad_kind': g.choice(['wide', 'int']),
+                             # operand i enters the columns at bit shifts[i] (ragged columns,
+                             # some of them empty or single below fuller ones)
+                             'shifts': [g.choice([0, 0, 1, 2, 3]) if g.random() < 0.6 else 0
+                                        for _ in widths]}
     elif gen in ('tree_multiplier', 'signed_tree_multiplier'):
         signed = gen == 'signed_tree_multiplier'
         lo = 2 if signed else 1
         widths = [pick_width(g, small, lo), pick_width(g, small, lo)]
         cfg['reducer'] = g.choice([None] + REDUCERS)
         cfg['final'] = g.choice([None] + FINALS)
+        if g.random() < 0.15:
+            cfg['square'] = True        # the same wire as both operands: x * x
+            widths = widths[:1]
     elif gen == 'fused_multiply_adder':
         widths = [pick_width(g, small), pick_width(g, small), pick_width(g, small, 1, 16)]
         cfg['reducer'] = g.choice([None] + REDUCERS)
@@ -306,7 +313,7 @@ def est_cost(case):
     if gen == 'fast_group_adder':
         return 10 * sum(w) + 20
     if gen in ('tree_multiplier', 'signed_tree_multiplier', 'fused_multiply_adder'):
-        return 9 * w[0] * w[1] + 12 * sum(w) + 20
+        return 9 * w[0] * w[min(1, len(w) - 1)] + 12 * sum(w) + 20
     np_ = case['cfg']['npairs']
     c = 20
     for i in range(np_):
@@ -492,11 +499,15 @@ def expected_value(case, vec):
         if cin is None:
             cin = vec[n]
         return x[0] + x[1] + cin
+    if gen == 'fast_group_adder' and cfg.get('direct') and cfg['direct'].get('shifts'):
+        return sum(v << s for v, s in zip(x, cfg['direct']['shifts']))
     if gen in ('carrysave_adder', 'fast_group_adder'):
         return sum(x)
     if gen == 'tree_multiplier':
-        return x[0] * x[1]
+        return x[0] * x[-1 if cfg.get('square') else 1]
     if gen == 'signed_tree_multiplier':
+        if cfg.get('square'):
+            return _to_signed(x[0], ws[0]) ** 2
         return _to_signed(x[0], ws[0]) * _to_signed(x[1], ws[1])
     if gen == 'fused_multiply_adder':
         return x[0] * x[1] + x[2]
@@ -547,11 +558,12 @@ def build_comb(pyrtl, case, blk, cfg=None, shared=None):
             return adders.carrysave_adder(xs[0], xs[1], xs[2], final_adder=kw['final'])
         return adders.carrysave_adder(xs[0], xs[1], xs[2])
     if gen == 'fast_group_adder' and cfg.get('direct'):
-        cols = [[] for _ in range(max(ws))]
-        for x in xs:
+        shifts = cfg['direct'].get('shifts') or [0] * len(ws)
+        cols = [[] for _ in range(max(w + s for w, s in zip(ws, shifts)))]
+        for x, s in zip(xs, shifts):
             for i in range(len(x)):
-                cols[i].append(x[i])
-        rb = sum((1 << w) - 1 for w in ws).bit_length()
+                cols[i + s].append(x[i])
+        rb = sum(((1 << w) - 1) << s for w, s in zip(ws, shifts)).bit_length()
         red = kw.get('reducer') or adders.wallace_reducer
         fkw = {'final_adder': kw['final']} if 'final' in kw else {}
         d = cfg['direct']
@@ -586,9 +598,9 @@ def build_comb(pyrtl, case, blk, cfg=None, shared=None):
     if 'final' in kw:
         mkw['adder_func'] = kw['final']
     if gen == 'tree_multiplier':
-        return multipliers.tree_multiplier(xs[0], xs[1], **mkw)
+        return multipliers.tree_multiplier(xs[0], xs[-1], **mkw)
     if gen == 'signed_tree_multiplier':
-        return multipliers.signed_tree_multiplier(xs[0], xs[1], **mkw)
+        return multipliers.signed_tree_multiplier(xs[0], xs[-1], **mkw)
     if gen == 'fused_multiply_adder':
         return multipliers.fused_multiply_adder(xs[0], xs[1], xs[2], **mkw)
     if gen == 'generalized_fma':
@@ -683,10 +695,10 @@ def run_comb(case, res):
             det = {'widths': ws, 'cfg': cfg, 'vector': vec, 'expected': exp, 'got': val,
                    'raw': got, 'result_width': rw, 'vector_index': vi}
             if signed:
-                mn = [i for i in range(2) if vec[i] == 1 << (ws[i] - 1)]
+                mn = [i for i in range(len(ws)) if vec[i] == 1 << (ws[i] - 1)]
                 if mn:
                     vt.append('most_negative_operand')
-                if any(vec[i] >> (ws[i] - 1) for i in range(2)):
+                if any(vec[i] >> (ws[i] - 1) for i in range(len(ws))):
                     vt.append('negative_operand')
                 return Violation('comb_exact', gen + '.wrong_value', det, vt)
             if cfg.get('cin') in ('c1', 'wire'):
